@@ -117,6 +117,26 @@ Theorem spec_at_meaning : forall ids0 pre,
 Proof. exact spec_at_full. Qed.
 Print Assumptions spec_at_meaning.
 
+(* an early stop of the due-timer iterator (its consumer returns in the middle: a handler error during the
+   advance) rolls nothing back: table and cached composite are exactly those of a fully drained advance
+   (no_timer_beyond_min above covers RAdvStop entries: the watermark after the call is the specified minimum) *)
+Theorem early_stop_keeps_composite : forall r s p k,
+  r_ups (fst (advance_stop r s p k)) = r_ups (fst (advance r s p)) /\
+  r_wm (fst (advance_stop r s p k)) = r_wm (fst (advance r s p)).
+Proof. exact advance_stop_same_wm. Qed.
+Print Assumptions early_stop_keeps_composite.
+
+(* the operator's table and composite after any history do not depend on the handler at all - in particular not
+   on which of its calls failed (handler = None) nor on the batch size; handler_told_composite quantifies over
+   failing handlers too, so the calls after a failed timer batch are told the minimum of the upstream table *)
+Theorem handler_error_keeps_composite : forall (h h' : handler) m m' ops st st',
+  r_ups (o_reg st) = r_ups (o_reg st') -> r_wm (o_reg st) = r_wm (o_reg st') ->
+  forall i, let run := fun hh mm s0 => fold_left (fun s o => fst (op_step hh mm s o)) (firstn i ops) s0 in
+  r_ups (o_reg (run h m st)) = r_ups (o_reg (run h' m' st')) /\
+  r_wm (o_reg (run h m st)) = r_wm (o_reg (run h' m' st')).
+Proof. exact wm_independent_of_handler. Qed.
+Print Assumptions handler_error_keeps_composite.
+
 (* a finished source runner keeps counting: SourceComplete changes neither the upstream table nor the composite
    (so composite_is_min / handler_told_composite above range over ALL runners' latest reports, finished or not:
    OComplete contributes nothing to oop_msgs and removes nothing) *)
@@ -151,7 +171,7 @@ Example reg_example :
   = [([], 0); ([], 0); ([], 0); ([(tm 2 0, 7%N)], tm 2 0); ([], tm 1 0)].
 Proof. vm_compute. split; reflexivity. Qed.
 Example op_example :
-  map (map c_told) (op_trace (fun _ evs => map (fun e => match e with HK _ k ts => (k, ts) | HT k _ => (k, []) end) evs) 1 (op_new [1%N; 2%N])
+  map (map c_told) (op_trace (fun _ evs => Some (map (fun e => match e with HK _ k ts => (k, ts) | HT k _ => (k, []) end) evs)) 1 (op_new [1%N; 2%N])
     [OEv 1 1 7 [Some (2, 0)]; OWm 1 (Some (3, 0)); OWm 2 (Some (2, 5)); OEv 2 2 7 []])
   = [[(0, 0)]; []; [(2, 5)]; [(2, 5)]].
 Proof. vm_compute. reflexivity. Qed.
@@ -159,20 +179,34 @@ Proof. vm_compute. reflexivity. Qed.
 (* the code before the repair violated handler_told_composite on the very first call *)
 Lemma handler_told_before_fix_refuted_w :
   exists ids ops calls c,
-    nth_error (op_trace (fun _ _ => []) 1 {| o_reg := reg_new_before_fix ids; o_batch := [] |} ops) 0 = Some calls /\
+    nth_error (op_trace (fun _ _ => Some []) 1 {| o_reg := reg_new_before_fix ids; o_batch := [] |} ops) 0 = Some calls /\
     In c calls /\ c_told c <> pb_new (spec_at ids (firstn 1 ops)).
 Proof. exact handler_told_before_fix_refuted. Qed.
 
 (* a runner finishes with the lowest watermark: it still holds the minimum back *)
 Example complete_example :
-  map (map c_told) (op_trace (fun _ evs => map (fun e => match e with HK _ k ts => (k, ts) | HT k _ => (k, []) end) evs) 1 (op_new [1%N; 2%N])
+  map (map c_told) (op_trace (fun _ evs => Some (map (fun e => match e with HK _ k ts => (k, ts) | HT k _ => (k, []) end) evs)) 1 (op_new [1%N; 2%N])
     [OWm 1 (Some (5, 0)); OWm 2 (Some (9, 0)); OEv 1 1 7 [Some (7, 0)]; OComplete 1; OWm 2 (Some (20, 0)); OEv 2 2 7 []])
   = [[]; []; [(5, 0)]; []; []; [(5, 0)]].
 Proof. vm_compute. reflexivity. Qed.
 
 (* a redeploy of the live operator starts from the epoch again, whatever the previous deployment had reached *)
 Example redeploy_example :
-  map (map c_told) (op_trace (fun _ evs => map (fun e => match e with HK _ k ts => (k, ts) | HT k _ => (k, []) end) evs) 1 (op_new [1%N])
+  map (map c_told) (op_trace (fun _ evs => Some (map (fun e => match e with HK _ k ts => (k, ts) | HT k _ => (k, []) end) evs)) 1 (op_new [1%N])
     [OWm 1 (Some (50, 0)); OEv 1 1 7 []; ODeploy [1%N]; OEv 1 2 7 [Some (20, 0)]; OWm 1 (Some (30, 0)); OEv 1 3 7 []])
   = [[]; [(50, 0)]; []; [(0, 0)]; [(30, 0)]; [(30, 0)]].
+Proof. vm_compute. reflexivity. Qed.
+
+(* the handler fails on the first expired timer of a watermark advance: the second due timer stays in the store,
+   the next call is told the ADVANCED composite, a timer at or before it is dropped, and the remaining timer fires
+   with the next advance *)
+Example handler_error_example :
+  map (map (fun c => (c_told c, c_events c)))
+    (op_trace (fun _ evs => if existsb (fun e => match e with HT 6 _ => true | _ => false end) evs then None
+                            else Some (map (fun e => match e with HK _ k ts => (k, ts) | HT k _ => (k, []) end) evs)) 1 (op_new [1%N])
+      [OEv 1 1 6 [Some (10, 0)]; OEv 1 2 7 [Some (20, 0)]; OWm 1 (Some (30, 0)); OEv 1 3 5 [Some (25, 0)]; OWm 1 (Some (31, 0))])
+  = [[((0, 0), [HK 1 6 [Some (10, 0)]])]; [((0, 0), [HK 2 7 [Some (20, 0)]])];
+     [((30, 0), [HT 6 (tm 10 0)])];
+     [((30, 0), [HK 3 5 [Some (25, 0)]])];
+     [((31, 0), [HT 7 (tm 20 0)])]].
 Proof. vm_compute. reflexivity. Qed.
